@@ -334,6 +334,31 @@ Definition emit_attr (s : st) (name : qname) (v : N) (req : ename) : st :=
 Definition declare_prefix (s : st) (p : atom) (u : uri) : st :=
   add_result_attr s (Some AXmlns, p) u no_req.
 
+(* xsl:attribute with a namespace: no usable prefix is bound to the URI, so a declaration is
+   generated for the prefix of the name (unless it is xmlns, or bound to another URI and in use on
+   the pending element) or for an invented prefix *)
+Definition attr_new_decl (s : st) (P : pfx) (L : atom) (u : uri) (v : N) (req : ename) : st :=
+  let keep_user :=
+    match P with
+    | Some AXmlns => None
+    | Some p =>
+        match ns_for_prefix (stk s) (Some p) with
+        | Some w => if negb (N.eqb w u) && is_pending_prefix s p then None else Some p
+        | None => Some p
+        end
+    | None => None
+    end in
+  match keep_user with
+  | Some p =>
+      let bad := match p with AXml => negb (N.eqb u uXML) | _ => false end in
+      let s1 := declare_prefix (add_hz_if bad HXmlPrefix s) p u in
+      emit_attr s1 (Some p, L) v req
+  | None =>
+      let (g, s1) := gen_unique s in
+      let s2 := declare_prefix s1 g u in
+      emit_attr s2 (Some g, L) v req
+  end.
+
 Definition exec_attr (s : st) (name : qname) (nsattr sns : option uri) (v : N) : st :=
   let P := fst name in
   let L := snd name in
@@ -359,27 +384,7 @@ Definition exec_attr (s : st) (name : qname) (nsattr sns : option uri) (v : N) :
               emit_attr (add_hz_if stale HShadow s) (Some q, L) v req
           | _ => s
           end
-        else
-          let keep_user :=
-            match P with
-            | Some AXmlns => None
-            | Some p =>
-                match ns_for_prefix (stk s) (Some p) with
-                | Some w => if negb (N.eqb w u) && is_pending_prefix s p then None else Some p
-                | None => Some p
-                end
-            | None => None
-            end in
-          match keep_user with
-          | Some p =>
-              let bad := match p with AXml => negb (N.eqb u uXML) | _ => false end in
-              let s1 := declare_prefix (add_hz_if bad HXmlPrefix s) p u in
-              emit_attr s1 (Some p, L) v req
-          | None =>
-              let (g, s1) := gen_unique s in
-              let s2 := declare_prefix s1 g u in
-              emit_attr s2 (Some g, L) v req
-          end
+        else attr_new_decl s P L u v req
   | None =>
       match pend s with
       | None => s                                              (* warning, attribute dropped *)
